@@ -893,6 +893,7 @@ def gen_contract(g, a, R_, C_, malformed):
     elif pat == 'rowscols':
         st['mat'], st['rows'], st['cols'] = {'arr': A(g.arr((n, m + (1 if bad else 0))))}, index(R_, (n,)), index(C_, (m,))
     elif pat in ('bmat', 'bb'):
+        bad = bad and C_ >= 2          # einsum would broadcast a length-1 axis (not modelled, see assumptions)
         st['mat'] = {'arr': A(g.arr(bs + (R_, C_ + (2 if bad else 0))))}
     elif pat == 'brows':
         st['mat'], st['rows'] = {'arr': A(g.arr((n, C_)))}, index(R_, bs + (n,))
@@ -1084,7 +1085,8 @@ def run(ctx):
     ctx.assumptions += [
         'excluded from generation (documented): A += A on the same object (does not terminate), element-wise multiplication '
         'by arrays, min()/max() (documented approximations), add_dyad with a complex fac (documented float), '
-        'subscripts that are Python lists / boolean masks / non-tuples, assignment of 0j or of arrays',
+        'subscripts that are Python lists / boolean masks / non-tuples, assignment of 0j or of arrays, batched contraction '
+        'with a sparse matrix, einsum broadcasting of length-1 axes in non-conforming batched contractions',
         'data are integer-valued float64/complex128 arrays with |entry| kept below 2^53, so every float operation is exact',
     ]
     ctx.trusted += ['Print Assumptions: all C15 theorems are closed under the global context (no axioms)',
